@@ -35,7 +35,14 @@ Inductive kcmd :=
 | TPause (tw : otw) | TResume (st : ostart) (tw : otw).
 Inductive kcb := KCb (cmds : list kcmd) (chunks : list (Z * list (Z * Z * Z * Z))).
 
+(** a value given to a parameter: fixed, or mapped from the listener distance *)
+Inductive dval := DFix (bits : Z) | DDist (lo hi olo ohi ekind ep : Z).
+Inductive dcmd := DVol (v : dval) (tw : otw) | DPrm (v : dval) (tw : otw).
+(** one callback: commands, then the chunks as (length, listener distance as f32 bits, -2 = none) *)
+Inductive dcb := DCb (cmds : list dcmd) (chunks : list (Z * Z)).
+
 Inductive ocase :=
+| CDst (sr : Z) (src vol0 prm0 : Z) (cbs : list dcb) (tab : list (Z * Z * Z))
 | CSnd (streaming : Z) (sr : Z) (src vol0 rate0 pan0 : Z) (st : ostart) (cbs : list scb) (tab : list (Z * Z * Z))
 | CTrk (sr : Z) (src vol0 route0 send0 main0 : Z) (cbs : list kcb) (tab : list (Z * Z * Z))
 | CMod (c : C17.Run.case).
@@ -52,8 +59,10 @@ Section Run.
 
   (** what reaches the device from one sound on the main track (0 dB): [*summed_out += sound_out]
       (track/main.rs:54), [*frame *= volume] (:66), [clamp(-1.0, 1.0)] (backend/renderer.rs:108-109) *)
-  Definition to_device (x : f32) : f32 :=
-    clamp32 (mul32 (add32 (Z32 0) x) (Z32 1)) (Z32 (-1)) (Z32 1).
+  (** the renderer's output stage: [if x.is_nan() { 0.0 } else { x.clamp(-1.0, 1.0) }] (agrees with the plain
+      [clamp] on a bus without NaN) *)
+  Definition finite_clamped (x : f32) : f32 := if isnan32 x then Z32 0 else clamp32 x (Z32 (-1)) (Z32 1).
+  Definition to_device (x : f32) : f32 := finite_clamped (mul32 (add32 (Z32 0) x) (Z32 1)).
 
   Section Snd.
     Variable streaming : bool.
@@ -152,7 +161,7 @@ Section Run.
       let! (main, _) := param_update opowf_none f32 olerp32 (mx_main m) dtl i in
       let out := gain_loop main len O out in
       Ok ({| mx_sub := sub; mx_send := send; mx_main := main |},
-          map (fun x => bits_of_f32 (clamp32 x (Z32 (-1)) (Z32 1))) out).
+          map (fun x => bits_of_f32 (finite_clamped x)) out).
 
     Definition apply_kcmd (m : mixer) (cm : kcmd) : mixer :=
       let sub := mx_sub m in
@@ -209,10 +218,68 @@ Section Run.
          mx_send := param_new (Fixed (f32_of_bits send0)) oidentity;
          mx_main := param_new (Fixed (f32_of_bits main0)) oidentity |}.
   End Trk.
+  (** ** a spatial sub-track (no attenuation, spatialization strength 0) on the main track: its volume
+      and a [Parameter<f64>] held by a probe effect on it, both possibly mapped from the listener distance *)
+  Section Dst.
+    Variable sr : Z.
+    Variable c : f32.
+    Definition mk_dval32 (v : dval) : value f64 f32 :=
+      match v with
+      | DFix b => Fixed (f32_of_bits b)
+      | DDist lo hi olo ohi ek ep =>
+          FromDist {| vin_lo := f64_of_bits lo; vin_hi := f64_of_bits hi; vout_lo := f32_of_bits olo;
+                      vout_hi := f32_of_bits ohi; v_easing := mk_easing ek ep |}
+      end.
+    Definition mk_dval64 (v : dval) : value f64 f64 :=
+      match v with
+      | DFix b => Fixed (f64_of_bits b)
+      | DDist lo hi olo ohi ek ep =>
+          FromDist {| vin_lo := f64_of_bits lo; vin_hi := f64_of_bits hi; vout_lo := f64_of_bits olo;
+                      vout_hi := f64_of_bits ohi; v_easing := mk_easing ek ep |}
+      end.
+    Definition dinfo (d : Z) : info f64 :=
+      {| i_clocks := []; i_mods := []; i_dist := if d <? 0 then None else Some (f32_to_f64 (f32_of_bits d)) |}.
+    Definition dst_chunk (vp : param f64 f32 * param f64 f64) (len d : Z) : outcome (param f64 f32 * param f64 f64 * list Z) :=
+      let dtl := chunk_time (Z.to_nat len) (div64 (Z64 1) (Z64 sr)) in
+      let! (vol, _) := param_update opowf_none f32 olerp32 (fst vp) dtl (dinfo d) in
+      let! (prm, _) := param_update opowf_none f64 (@lerp f64 Num_f64) (snd vp) dtl (dinfo d) in
+      (* last frame of the chunk: time_in_chunk = len / len *)
+      let amount := div64 (Z64 len) (Z64 len) in
+      let volume := oamp (param_interpolated f32 olerp32 vol amount) in
+      let fade_volume := oamp (olerp32 oidentity oidentity amount) in
+      let x := mul32 (add32 (Z32 0) c) (mul32 volume fade_volume) in
+      Ok (vol, prm, [bits_of_f64 (p_raw prm); bits_of_f32 (to_device x)]).
+    Definition apply_dcmd (vp : param f64 f32 * param f64 f64) (cm : dcmd) : param f64 f32 * param f64 f64 :=
+      match cm with
+      | DVol v tw => (param_set (fst vp) (mk_dval32 v) (mk_otw tw), snd vp)
+      | DPrm v tw => (fst vp, param_set (snd vp) (mk_dval64 v) (mk_otw tw))
+      end.
+    Fixpoint dst_chunks (vp : param f64 f32 * param f64 f64) (chunks : list (Z * Z)) : outcome (param f64 f32 * param f64 f64 * list Z) :=
+      match chunks with
+      | [] => Ok (fst vp, snd vp, [])
+      | (len, d) :: r =>
+          let! (v1, p1, o1) := dst_chunk vp len d in
+          let! (v2, p2, o2) := dst_chunks (v1, p1) r in
+          Ok (v2, p2, o1 ++ o2)
+      end.
+    Fixpoint go_dst (vp : param f64 f32 * param f64 f64) (cbs : list dcb) : list Z :=
+      match cbs with
+      | [] => []
+      | DCb cmds chunks :: cbs' =>
+          match dst_chunks (fold_left apply_dcmd cmds vp) chunks with
+          | Ok (v, p, outs) => outs ++ go_dst (v, p) cbs'
+          | Panic k => [1000 + panic_code k]
+          | Hang => [2000]
+          end
+      end.
+  End Dst.
 End Run.
 
 Definition orun (c : ocase) : list Z :=
   match c with
+  | CDst sr src vol0 prm0 cbs tab =>
+      go_dst tab sr (f32_of_bits src)
+        (param_new (Fixed (f32_of_bits vol0)) (Z32 0), param_new (Fixed (f64_of_bits prm0)) (Z64 0)) cbs
   | CSnd streaming sr src vol0 rate0 pan0 st cbs tab =>
       let str := negb (streaming =? 0) in
       go_snd tab str sr (f32_of_bits src) (snd_init str sr vol0 rate0 pan0 st) cbs
